@@ -73,7 +73,7 @@ class Type(object):
 
     def __del__(self):
         h = getattr(self, "_h", None)
-        if h is not None and akb._lib is not None:
+        if h is not None and akb is not None and akb._lib is not None:
             try:
                 akb._lib.akb_release_type(h)
             except Exception:
@@ -350,7 +350,7 @@ class Form(object):
 
     def __del__(self):
         h = getattr(self, "_h", None)
-        if h is not None and akb._lib is not None:
+        if h is not None and akb is not None and akb._lib is not None:
             try:
                 akb._lib.akb_release_form(h)
             except Exception:
